@@ -238,17 +238,22 @@ def current_env():
     return {'TZ': os.environ.get('TZ', ''), 'optimize': int(sys.flags.optimize)}
 
 
-def secondary_pass(prop, tier, base_seed, n, budget, workers):
+def secondary_start(prop, tier, base_seed, n, budget, workers):
     """The same first worlds once more in another process environment: `python -O` (assert statements and their side
-    effects compiled away) and another local time zone.  Returns (exit code, worlds run, output)."""
+    effects compiled away) and another local time zone.  Started next to the primary search; (Popen, time zone)."""
     n2 = max(1, n // 6)
     b2 = max(6.0, min(budget * 0.3, 12.0 if tier == 'quick' else 150.0))
     env = dict(os.environ, VERIF_TZ=TZS[(base_seed + 1) % len(TZS)], VERIF_OPTIMIZE='1', VERIF_SECONDARY='1')
-    p = subprocess.run([sys.executable, os.path.join(VERIF_DIR, 'check'), prop, '--tier', tier, '--seed', str(base_seed),
-                        '--n', str(n2), '--budget', str(b2), '--workers', str(workers), '--no-evidence'],
-                       cwd=VERIF_DIR, capture_output=True, text=True, env=env)
-    m = re.search(r'%s %s: (\d+) worlds' % (prop, tier), p.stdout)
-    return p.returncode, int(m.group(1)) if m else 0, p.stdout + p.stderr, env['VERIF_TZ']
+    p = subprocess.Popen([sys.executable, os.path.join(VERIF_DIR, 'check'), prop, '--tier', tier, '--seed', str(base_seed),
+                          '--n', str(n2), '--budget', str(b2), '--workers', str(max(2, workers // 4)), '--no-evidence'],
+                         cwd=VERIF_DIR, stdout=subprocess.PIPE, stderr=subprocess.STDOUT, text=True, env=env)
+    return p, env['VERIF_TZ']
+
+
+def secondary_finish(p, prop, tier):
+    out, _ = p.communicate()
+    m = re.search(r'%s %s: (\d+) worlds' % (prop, tier), out)
+    return p.returncode, int(m.group(1)) if m else 0, out
 
 
 def write_replay(prop, tier, base_seed, run, seed, case, violations, extra=None):
@@ -349,6 +354,9 @@ def main(argv=None):
     for line in known_finding_lines(prop):
         print(line)
     deadline = t0 + budget
+    sec = None
+    if not os.environ.get('VERIF_SECONDARY') and not a.digests and not os.environ.get('VERIF_NO_SECONDARY'):
+        sec = secondary_start(prop, tier, base_seed, n, budget, a.workers)
     tasks = [(prop, tier, base_seed, s, min(batch, n - s), world_timeout, deadline) for s in range(0, n, batch)]
     results = {}
     harness_error = None
@@ -396,6 +404,9 @@ def main(argv=None):
     except BrokenProcessPool as exc:
         harness_error = 'worker died or timed out: %r' % (exc,)
     if harness_error:
+        if sec is not None:
+            sec[0].kill()
+            sec[0].communicate()
         print('HARNESS-ERROR property=%s' % prop)
         print(harness_error)
         return 2
@@ -532,8 +543,12 @@ def main(argv=None):
         print('minimised %d -> %d bytes of case JSON in %d executions' % (
             minim['original_size'], minim['minimised_size'], execs))
     secondary = None
-    if viol is None and not os.environ.get('VERIF_SECONDARY') and not a.digests and not os.environ.get('VERIF_NO_SECONDARY'):
-        rc2, n2, out2, tz2 = secondary_pass(prop, tier, base_seed, n, budget, a.workers)
+    if sec is not None and viol is not None:
+        sec[0].kill()
+        sec[0].communicate()
+    if viol is None and sec is not None:
+        tz2 = sec[1]
+        rc2, n2, out2 = secondary_finish(sec[0], prop, tier)
         secondary = {'TZ': tz2, 'optimize': 1, 'worlds': n2, 'exit': rc2}
         if rc2 == 1:
             for line in out2.splitlines():
